@@ -3,9 +3,12 @@ from common import log
 
 def run(pid, tier):
     try:
-        if pid in ("C01", "C09", "C10", "C13"):
+        if pid in ("C01", "C09", "C10", "C13", "C20"):
             import dhcp_lease
             return dhcp_lease.check(pid, tier)
+        if pid == "C18":
+            import dhcp_store
+            return dhcp_store.check(pid, tier)
         log("TOOL-ERROR: no check registered for %s" % pid)
         return 2
     except Exception:
